@@ -1744,4 +1744,85 @@ theorem samplesOf_perm (k : Nat) {a b : List (Nat × TSample)} (h : a.Perm b) : 
   (h.filter _).map _
 
 
+/-! ## configuration in front of the post-processor; throttling wait -/
+
+theorem driverRunCfg_eq (opt : Option Nat) : ∀ (evs : List DEvent) (buf : List (Nat × TSample)) (stats : List (Nat × TaskStats)),
+    (driverRunCfg opt buf stats evs).2.map (·.2) = (driverRun buf stats evs).2 ∧
+    (driverRunCfg opt buf stats evs).1 = (driverRun buf stats evs).1 ∧
+    (driverRunCfg opt buf stats evs).2.map (·.1) =
+      (driverBatches buf evs).map (requestMetricSamples (downsampleFactor opt)) := by
+  intro evs
+  induction evs with
+  | nil => intro buf stats; exact ⟨rfl, rfl, rfl⟩
+  | cons e evs ih =>
+    intro buf stats
+    cases e with
+    | update samples => exact ih (buf ++ samples) stats
+    | postProcess =>
+      obtain ⟨i1, i2, i3⟩ := ih [] (postprocess stats buf).1
+      simp only [driverRunCfg, driverRun, driverBatches, List.map_cons]
+      rw [i1, i2, i3]
+      exact ⟨rfl, rfl, rfl⟩
+
+theorem everyNthFrom_one {α : Type} : ∀ (xs : List α) (i : Nat), everyNthFrom 1 i xs = xs := by
+  intro xs
+  induction xs with
+  | nil => intro i; rfl
+  | cons x xs ih => intro i; simp only [everyNthFrom, Nat.mod_one, if_true, ih]
+
+theorem everyNthFrom_sublist {α : Type} (f : Nat) : ∀ (xs : List α) (i : Nat), (everyNthFrom f i xs).Sublist xs := by
+  intro xs
+  induction xs with
+  | nil => intro i; exact List.Sublist.refl _
+  | cons x xs ih =>
+    intro i
+    simp only [everyNthFrom]
+    split
+    · exact (ih (i + 1)).cons_cons x
+    · exact (ih (i + 1)).cons x
+
+theorem throttleStart_ge_free (ts free e : Rat) : free ≤ throttleStart ts free e := by
+  unfold throttleStart
+  split
+  · split
+    · linarith
+    · exact le_refl _
+  · exact le_refl _
+
+theorem throttleStart_eq_max (ts free e : Rat) (he : 0 < e) : throttleStart ts free e = max free (ts + e) := by
+  unfold throttleStart
+  rw [if_pos he]
+  split
+  · rw [max_eq_right (by linarith)]; ring
+  · rw [max_eq_left (by linarith)]
+
+theorem throttleStart_unthrottled (ts free e : Rat) (he : ¬ 0 < e) : throttleStart ts free e = free := by
+  unfold throttleStart
+  rw [if_neg he]
+
+theorem clientRun_length (ts : Rat) : ∀ (qs : List SchedReq) (free : Rat), (clientRun ts free qs).length = qs.length := by
+  intro qs
+  induction qs with
+  | nil => intro free; rfl
+  | cons q qs ih => intro free; simp only [clientRun, List.length_cons, ih]
+
+theorem clientRun_start_ge (ts : Rat) : ∀ (qs : List SchedReq) (free : Rat) (i : Nat) (h : i < (clientRun ts free qs).length),
+    free + sumBusy (qs.take i) ≤ ((clientRun ts free qs)[i]'h).1 := by
+  intro qs
+  induction qs with
+  | nil => intro free i h; simp [clientRun] at h
+  | cons q qs ih =>
+    intro free i h
+    cases i with
+    | zero =>
+      simp only [clientRun, List.take_zero, sumBusy, List.getElem_cons_zero, add_zero]
+      exact throttleStart_ge_free ts free q.expected
+    | succ i =>
+      simp only [clientRun, List.take_succ_cons, sumBusy, List.getElem_cons_succ]
+      have h' : i < (clientRun ts (throttleStart ts free q.expected + q.busy) qs).length := by
+        simpa [clientRun] using h
+      have := ih (throttleStart ts free q.expected + q.busy) i h'
+      have h0 := throttleStart_ge_free ts free q.expected
+      linarith
+
 end Throughput
